@@ -197,7 +197,8 @@ Definition check_haarnd (k : case_haarnd) : bool :=
   (* <W x', c>_coeff = <x', W.adjoint c>_dom for x' = x and the extra elements *)
   && forallb (fun x' => Qclose htol htol (inner_dom sides x' (n_adj k)) (dot (W x') (n_c k)))
              (n_x k :: n_xs k)
-  (* W (W.inverse c) = c *)
+  (* W (W.inverse c) = c, and W.inverse c is the model's inverse *)
   && Qsclose htol htol (n_c k) (W (n_inv k))
+  && Qsclose htol htol (n_inv k) (ihaar_nd r2Q (n_L k) (n_shape k) (n_axes k) (n_c k))
   (* <W.inverse c, x>_dom = <c, W.inverse.adjoint x>_coeff *)
   && Qclose htol htol (dot (n_c k) (n_iadj k)) (inner_dom sides (n_inv k) (n_x k)).
